@@ -77,6 +77,9 @@ func (f *Defparameter) Call(s *slip.Scope, args slip.List, depth int) (result sl
 	// As with defvar, pkg::name and pkg:name name a variable of pkg.
 	pkg, vname, private := slip.UnpackName(string(name))
 	if pkg == nil {
+		if 0 < len(vname) && vname[0] == ':' {
+			slip.PackagePanic(s, depth, &slip.KeywordPkg, "%s is a constant and thus can't be set", vname)
+		}
 		pkg = slip.CurrentPackage
 	}
 	vv := pkg.Set(vname, iv, private)
